@@ -50,6 +50,8 @@ def generate(ck, tier):
     global WINDOW_SCHEDS
     WINDOW_SCHEDS = sc.gen_window_schedules(ck, tier)
     gen_bursts(ck, tier)
+    global COLLISION_SCHEDS
+    COLLISION_SCHEDS = sc.gen_collision_schedules(ck, tier)
     return singles, pairs, res["finished"]
 
 
@@ -57,6 +59,7 @@ WINDOW_SCHEDS = []
 
 
 BURSTS = []
+COLLISION_SCHEDS = []
 
 
 def gen_bursts(ck, tier):
@@ -180,6 +183,9 @@ def build_scenarios(singles, pairs, tier):
         msgs += [{"from": "B", "sid": 1, "len": b["p"], "task": 1} for _ in range(b["n"] // 2)]
         msgs += [{"from": "A", "sid": 1, "len": 5, "phase": 2}, {"from": "B", "sid": 1, "len": 5, "phase": 2}]
         scen.append(sc.scenario(f"b{i:03d}", [], [sc.chan(1)], msgs, idle_ms=60, cfg={"max_burst": [0, 16][i % 2]}))
+    # INIT collision (both ends send INIT): every rule, and in particular Quiescent over a window that is longer than
+    # two maximal T1 intervals
+    scen += sc.collision_scenarios(COLLISION_SCHEDS, rng, limit=30 if tier == "quick" else 300, seed=vlib.seed() + 60)
     # advertised window of exactly zero: TLC's closing-window schedules on a 1.5-3 KiB receive window
     scen += sc.window_scenarios(WINDOW_SCHEDS, rng, idle_ms=150, limit=40 if tier == "quick" else 400, seed=vlib.seed() + 30)
     return scen
